@@ -8,7 +8,7 @@ LEAN_TARGETS = ['LLTD.Props.C10', 'LLTD.Props.C10H']
 VARIANT = 'plain'
 RULE = ('two responder instances A and B (distinct addresses from a near-collision pool) in one process: a mapper orders A to emit 1..20 '
         'Probe/Train frames towards B (some towards other stations), A\'s transmitted frames are delivered unmodified to B (`relay`), '
-        'interleaved with unrelated traffic on B before and after the delivery (Hellos, Discovers of either service with the same or a changed generation, QueryLargeTlv, including Probes from third stations that use the same Ethernet source addresses), then B is queried until the more flag clears; non-trivial = B reported at least one '
+        'interleaved with unrelated traffic on B before and after the delivery (Hellos, Discovers of either service with the same or a changed generation, QueryLargeTlv, including Probes from third stations that use the same Ethernet source addresses), then B is queried until the more flag clears; batches that fill B\'s record to exactly (one below / above) the capacity of one QueryResp at B\'s MTU, for every residue of that MTU modulo the descriptor size; non-trivial = B reported at least one '
         'observation whose real source is A; distinct = distinct projected transcript')
 ASSUMPTIONS = ['port contract as for C02', 'no Reset reaches B between the delivery and the Queries; at most 300 distinct observations']
 
@@ -40,6 +40,22 @@ def cases(rng, tier, X):
             for _ in range(3):
                 ops.append('rx 1 ' + F.query(mapper, b, rng.randrange(1, 65536)))
         out.append(('p%d' % k, ops))
+    # B's record filled to exactly (or one around) what one QueryResp holds at B's MTU — for every residue of the MTU modulo the
+    # descriptor size — by ONE batch from A whose first frame carries A's own address as source
+    for k in range(40 if tier == 'quick' else 2000):
+        a, b = rng.sample(F.NEAR[:7], 2)
+        mapper = rng.choice(F.STATIONS)
+        mtub = rng.choice([576 + r for r in range(20)] + [1492, 1500, 1512, 1472])
+        capb = (mtub - 34) // 20
+        ops = [F.iface_line(0, mac=a, mtu=9216), F.iface_line(1, mac=b, mtu=mtub), F.glob_line(),
+               'rx 0 ' + F.discover(mapper, 1, 1), 'rx 1 ' + F.discover(mapper, 1, 1)]
+        total = capb + rng.choice([-1, 0, 0, 0, 1])
+        descs = [(rng.choice([0, 1]), 0, a if i == 0 else '0c%02x0000%04x' % (k & 255, i), b) for i in range(total)]
+        ops.append('rx 0 ' + F.emit(mapper, a, rng.randrange(1, 65536), descs))
+        ops.append('relay 0 1')
+        for _ in range(3):
+            ops.append('rx 1 ' + F.query(mapper, b, rng.randrange(1, 65536)))
+        out.append(('cap%d' % k, ops))
     # universal traffic (every frame type / sender / path / service / boundary value, 1..3 interfaces): this check's predicate on it
     for k in range(60 if tier == 'quick' else 6000):
         out.append(('u%d' % k, F.universal(rng)))
